@@ -499,6 +499,28 @@ for n in (0, 1, 2, 5, 40):
         got2 = obj2.__getstate__()
         if len(got2) != 2 or got2[0] != want[0] or got2[1] is not nxt:
             bad.append("%%s%%s of %%d entries with a successor: __getstate__() == %%r" %% (fam, nm, n, got2))
+# allocation failures inside __getstate__ (CPython's own allocator: _testcapi.set_nomemory) must surface as MemoryError
+try:
+    import _testcapi
+except ImportError:
+    _testcapi = None
+if _testcapi is not None and fam[0] != "O":
+    class T(getattr(M, fam + "BTree")):
+        max_leaf_size = 2; max_internal_size = 4
+    t = T()
+    for k in range(1000, 1008):
+        t[k] = val(k)
+    for n in range(0, 40):
+        try:
+            _testcapi.set_nomemory(n, n + 1)
+            try:
+                t.__getstate__()
+            finally:
+                _testcapi.remove_mem_hooks()
+        except MemoryError:
+            pass
+        except BaseException as e:
+            bad.append("%%sBTree.__getstate__ with allocation %%d failing: %%s: %%s (expected MemoryError)" %% (fam, n, type(e).__name__, e)); break
 print("\n".join(bad[:8]) or "no violation")
 sys.exit(1 if bad else 0)
 '''
